@@ -22,6 +22,18 @@ func main() {
 		os.Exit(cmdCheck(os.Args[2:]))
 	case "baseline":
 		os.Exit(cmdBaseline(os.Args[2:]))
+	case "seqscan":
+		p, err := loadProgram("/repo")
+		if err != nil {
+			fmt.Println(err)
+			os.Exit(2)
+		}
+		if len(os.Args) > 2 && os.Args[2] == "users" {
+			snaUsers(p)
+		} else {
+			seqScan(p)
+		}
+		os.Exit(0)
 	case "effects":
 		p, err := loadProgram("/repo")
 		if err != nil {
